@@ -392,17 +392,20 @@ def programs(tier: str) -> List[Dict[str, Any]]:
     thorough = tier == "thorough"
     for f in forests(1, 3):
         for rot in range(nfl):
-            for pos in ("main", "sub"):
+            for pos in ("main", "sub") if thorough else (("main", "sub")[(rot + common.h64(repr(f))) % 2],):
                 emit(f, rot, pos, 3 if thorough else 1, "n1")
     for f in forests(2, 3):
         for rot in range(nfl) if thorough else (hrot(f),):
             for pos in ("main", "sub") if thorough else (hpos(f),):
                 emit(f, rot, pos, 2 if thorough else 1, "n2")
     for f in chains():
-        if not thorough and depth_of(f) == 3 and leaf_of(f) in ("mcfg", "cmt", "src"):
+        if not thorough and leaf_of(f) in (("mcfg", "cmt", "src") if depth_of(f) == 3 else ("cmt", "src")):
             continue
         for pos in ("main", "sub") if thorough else (hpos(f),):
             emit(f, hrot(f), pos, 2 if thorough else 1, "chain")
+    # every spelling of `source` directly after an option that ends in a help text
+    for rot in range(len(SRC_KW)):
+        emit((("cfg", "help"), ("src",)), rot, "main", 2 if thorough else 1, "extra")
     # constructs the documented rules do not forbid, kept in dedicated programs
     for f in ((("cfg", "strhash"),), (("cfg", "plain"), ("if", (("uchoice", (("cfg", "plain"), ("cfg", "plain"))),)))):
         for pos in ("main", "sub"):
@@ -694,6 +697,31 @@ def msg_class(msg: str, path: str) -> str:
     return m[:90]
 
 
+def _put(path: str, text: str) -> None:
+    fd = os.open(path, os.O_WRONLY | os.O_CREAT | os.O_TRUNC, 0o644)
+    try:
+        os.write(fd, text.encode("utf-8"))
+    finally:
+        os.close(fd)
+
+
+def _get(path: str) -> Optional[str]:
+    try:
+        fd = os.open(path, os.O_RDONLY)
+    except OSError:
+        return None
+    try:
+        chunks = []
+        while True:
+            b = os.read(fd, 65536)
+            if not b:
+                break
+            chunks.append(b)
+    finally:
+        os.close(fd)
+    return b"".join(chunks).decode("utf-8")
+
+
 class Ctx:
     """one program (canonical files) with one target file; holds the scratch directories and the per-item memo tables"""
 
@@ -713,13 +741,13 @@ class Ctx:
         self.cwd = os.getcwd()
         os.chdir(self.pd)  # `source "Kconfig.x"` is resolved against the working directory
         for fn, t in files.items():
-            with open(os.path.join(self.pd, fn), "w") as f:
-                f.write(t)
+            _put(os.path.join(self.pd, fn), t)
         self.nv = 0
         self.vmemo: Dict[str, tuple] = {}
         self.verified: set = set()
         self.dumps: Dict[Tuple[int, str], tuple] = {}
         self.real_calls = 0
+        self.last_err_line: Optional[str] = None
         self.memo_hits = 0
         self.p2_parses = 0
         self._rk = None
@@ -739,8 +767,7 @@ class Ctx:
             m = self._rename_meaning(text)
         else:
             kl = impl.lib()
-            with open(os.path.join(self.pd, self.target), "w") as f:
-                f.write(text)
+            _put(os.path.join(self.pd, self.target), text)
             k = None
             try:
                 k = kl.Kconfig(os.path.join(self.pd, "Kconfig"), parser_version=version)
@@ -771,8 +798,7 @@ class Ctx:
                 f.write('mainmenu "T"\n')
             self._rk = kl.Kconfig(p, parser_version=1)
         p = os.path.join(self.pd, self.target)
-        with open(p, "w") as f:
-            f.write(text)
+        _put(p, text)
         try:
             self._rk.load_rename_files([p])
             d = self._rk.deprecated_options
@@ -793,10 +819,9 @@ class Ctx:
         self.nv += 1
         self.real_calls += 1
         d = os.path.join(self.base, f"v{self.nv}")
-        os.makedirs(d)
+        os.mkdir(d)
         path = os.path.join(d, self.target)
-        with open(path, "w") as f:
-            f.write(text)
+        _put(path, text)
         # the first Kconfig() of a process installs kconfiglib's own logger (report.py: CachingLog); take it back
         _cap.install()
         _cap.msgs.clear()
@@ -808,15 +833,15 @@ class Ctx:
             except BaseException as e:  # noqa: BLE001 -- includes SystemExit from log.die()
                 first = next((msg_class(m, path) for k, m in _cap.msgs if k == "err"), "")
                 return ("exc", type(e).__name__, exc_site(e), first)
-            try:
-                with open(path) as f:
-                    out = f.read()
-            except OSError:
-                out = None
+            out = _get(path)
             left = tuple(sorted(x for x in os.listdir(d) if x != self.target))
             said_ok = any(k == "print" and m == f"{path}: OK" for k, m in _cap.msgs)
-            errs = [msg_class(m, path) for k, m in _cap.msgs if k == "err"]
-            return ("ret", ok, out, said_ok, left, errs[0] if errs else "")
+            errs = [m for k, m in _cap.msgs if k == "err"]
+            self.last_err_line = None
+            if errs:
+                mm = re.match(re.escape(path) + r":(\d+|EOF): ", errs[0])
+                self.last_err_line = mm.group(1) if mm else None
+            return ("ret", ok, out, said_ok, left, msg_class(errs[0], path) if errs else "")
         finally:
             _cap.msgs.clear()
             try:
@@ -853,7 +878,15 @@ def check_canonical(ctx: Ctx, r: common.Result, labels: List[str], spec: Any) ->
     def viol(kind: str, msg: str, **kw):
         nonlocal good
         good = False
-        sig = {"kind": kind, "mangling": "none", "entry": "canonical:" + constructs}
+        # entry kind = the line kconfcheck complains about (its line numbers are 0-based), else the constructs of the file
+        ln = ctx.last_err_line
+        if ln is not None and ln.isdigit() and int(ln) < len(labels):
+            where = labels[int(ln)]
+        elif ln == "EOF":
+            where = "EOF"
+        else:
+            where = "file"
+        sig = {"kind": kind, "mangling": "none", "entry": "canonical:" + where}
         sig.update(kw)
         r.violation(sig, f"[{ctx.family} canonical {ctx.target}] {msg}", case)
 
@@ -867,9 +900,9 @@ def check_canonical(ctx: Ctx, r: common.Result, labels: List[str], spec: Any) ->
         if not ok or not said_ok:
             viol("compliant_file_not_ok", f"compliant file reported not OK ({mode}): {first!r} (returned {ok}, printed OK: {said_ok})", complaint=first, mode=mode)
         if out != text:
-            viol("compliant_file_rewritten", f"compliant file changed by validate_file({mode})", mode=mode)
+            viol("compliant_file_rewritten", f"compliant file changed by validate_file({mode})", complaint=first, mode=mode)
         if left:
-            viol("suggestion_file_left", f"{left} left behind after validate_file({mode}) on a compliant file", mode=mode)
+            viol("suggestion_file_left", f"{left} left behind after validate_file({mode}) on a compliant file", complaint=first, mode=mode)
     if ctx.family == "kconfig":
         m1 = ctx.meaning(text, 1)
         m2 = ctx.meaning(text, 2)
